@@ -337,7 +337,15 @@ type Obs struct {
 	SnapValues []string
 	JSONHeads  []string
 	Len        int
+	// Differ: accessor results (Heads, RawHeads, Values, snapshot values) that hand out, for a hash the index
+	// holds, an object whose CONTENT differs from the indexed one (e.g. an unverified same-hash object that
+	// replaced a head). Only hashes present in the index are compared, so a racing writer cannot cause an entry.
+	Differ []string
 }
+
+// OnObserve, when set, sees every observation (mon uses it to report Differ for the properties that speak
+// about the content of what a log hands out).
+var OnObserve func(o *Obs)
 
 func Observe(l *ipfslog.IPFSLog) *Obs {
 	o := &Obs{ID: l.GetID(), Set: model.Set{}, Objs: map[iface.IPFSLogEntry]string{}}
@@ -349,15 +357,39 @@ func Observe(l *ipfslog.IPFSLog) *Obs {
 		o.Set[e.GetHash().String()] = ToModel(e)
 		o.Objs[e] = ObjectDigest(e)
 	}
-	o.Heads = Hashes(l.Heads().Slice())
-	o.RawHeads = Hashes(l.RawHeads().Slice())
-	o.Values = Hashes(l.Values().Slice())
+	cmp := func(acc string, es []iface.IPFSLogEntry) []iface.IPFSLogEntry {
+		for _, e := range es {
+			if e == nil {
+				continue
+			}
+			if _, same := o.Objs[e]; same {
+				continue // the indexed object itself
+			}
+			if m, ok := o.Set[e.GetHash().String()]; ok && m.Digest != ContentDigest(e) && len(o.Differ) < 8 {
+				o.Differ = append(o.Differ, fmt.Sprintf("%s() hands out for %s an object with payload %q next %v, the index holds payload %q next %v", acc, Short(m.Hash), clip(string(e.GetPayload()), 40), Shorts(Cids(e.GetNext())), clip(m.Payload, 40), Shorts(m.Next)))
+			}
+		}
+		return es
+	}
+	o.Heads = Hashes(cmp("Heads", l.Heads().Slice()))
+	o.RawHeads = Hashes(cmp("RawHeads", l.RawHeads().Slice()))
+	o.Values = Hashes(cmp("Values", l.Values().Slice()))
 	sn := l.ToSnapshot()
 	o.SnapHeads = Cids(sn.Heads)
-	o.SnapValues = Hashes(sn.Values)
+	o.SnapValues = Hashes(cmp("ToSnapshot().Values", sn.Values))
 	o.JSONHeads = Cids(l.ToJSONLog().Heads)
 	o.Len = l.Len()
+	if OnObserve != nil {
+		OnObserve(o)
+	}
 	return o
+}
+
+func clip(s string, n int) string {
+	if len(s) > n {
+		return s[:n] + "..."
+	}
+	return s
 }
 
 // Short shortens a hash for reports.
